@@ -765,9 +765,18 @@ func TestC12Abandoned(t *testing.T) {
 		if exA.timedOut {
 			c.failf("the request whose caller had given up was not answered within %v (held command: %s, mode %s)", l1Deadline, heldVerb, mode)
 		}
+		refusals := 0
 		if mode == "no-cancel" || !held {
 			if exA.rpcErr != nil {
-				c.failf("a request that nobody cancelled failed: %v", exA.rpcErr)
+				// a waiter that gave up in the middle of its writes leaves stored operations behind; the next push
+				// that meets them - here the held request itself, when it goes on - is refused once and takes them
+				// into the log (same tolerance as for the later syncs below; a REST patch reports that refusal since
+				// the S48 repair)
+				if len(waiters) > 0 && strings.Contains(exA.rpcErr.Error(), "duplicate key") {
+					refusals++
+				} else {
+					c.failf("a request that nobody cancelled failed: %v", exA.rpcErr)
+				}
 			}
 		}
 		if !viaPatch {
@@ -784,7 +793,6 @@ func TestC12Abandoned(t *testing.T) {
 		}
 		w.env.WaitBackground(5 * time.Second)
 		// everybody goes on using the datatype
-		refusals := 0
 		order := rapid.Permutation([]int{0, 1, 2}[:nc]).Draw(rt, "order")
 		for round := 0; round < 2; round++ {
 			for _, ci := range order {
